@@ -114,6 +114,13 @@ class BField:
     def rnd(self, rng):
         return rng.getrandbits(self.m)
 
+    def srt_half(self):
+        """fb_srtn_low takes its table path (fb_sqrt_low) when an exponent of f is even; that path keeps the even-indexed
+        coefficients in HALF = ceil((m div 2) / W) digits although there are ceil(m / 2) of them: one bit short when
+        (m div 2) is a multiple of the digit size (m = 17 with 8-bit digits; 129, 257 with 64-bit digits)"""
+        es = [i for i in range(1, self.m) if self.f >> i & 1]
+        return (self.m // 2) % self.wbits == 0 and any(e % 2 == 0 for e in es)
+
     def irreducible(self):
         m, f = self.m, self.f
         x = 2
@@ -238,9 +245,13 @@ def gen_field(F, rng, tier, exhaustive=False, ext=True, budget=1.0, full_variant
             for a in ins:
                 if a == 1 and op in ("fb_inv", "fb_inv_exgcd", "fb_inv_lower"):
                     continue                    # meets a recorded finding: one case per routine, last
+                if F.srt_half() and op in ("fb_srt", "fb_srt_quick") and a >> (m - 1):
+                    continue                    # idem (tiny world only): two cases per routine, last
                 L.append(F.line(op, k % 2, hx(a)))
                 k += 1
     inv_one = [F.line(op, 0, "1") for op in ("fb_inv", "fb_inv_exgcd", "fb_inv_lower")]
+    if F.srt_half():
+        inv_one += [F.line(op, i, hx(v)) for op in ("fb_srt", "fb_srt_quick") for i, v in enumerate([1 << (m - 1), (1 << m) - 1])]
     for gi, op in enumerate(TRC):
         if exhaustive and not quick:
             ins = allel if (gi == 0 or full_variants) else rng.sample(allel, nr(20000)) + cs
@@ -282,11 +293,18 @@ def gen_field(F, rng, tier, exhaustive=False, ext=True, budget=1.0, full_variant
     ks_basic = [0, 1, 2, 3, 5, m - 1, m, m + 1, -1, -2, -(m - 1), -m]
     ks_quick = [1, 2, 5, m - 1, -1] if quick else [0, 1, 2, 3, 5, 8, m - 1, m, -1, -2, -(m - 1)]
     its = small[:8] + [F.rnd(rng) for _ in range(nr(3 if quick else 20))]
+    srt_tail = []
     for kk in ks_basic:
         for a in its:
+            if kk < 0 and F.srt_half():
+                if len(srt_tail) < 1:
+                    srt_tail.append(F.line("fb_itr_basic", 0, hx(1 << (m - 1)), -1))
+                continue                        # iterated square roots meet the square-root finding (tiny world)
             L.append(F.line("fb_itr_basic", k % 2, hx(a), kk))
             k += 1
     for kk in ks_quick:
+        if kk < 0 and F.srt_half():
+            continue
         for a in cs + [F.rnd(rng) for _ in range(nr(5 if quick else 40))]:
             L.append(F.line("fb_itr_quick", k % 2, hx(a), kk))
             k += 1
@@ -361,7 +379,7 @@ def gen_field(F, rng, tier, exhaustive=False, ext=True, budget=1.0, full_variant
                 continue                        # Tr(a0) = 1 meets a recorded finding: three cases, last
             (tail if i % 2 else L).append(F.line("fb2_slv", i % 2 if i % 4 < 2 else 0, hx(a0), hx(a1)))
         L.append(F.line("fb2_slv", 0, "0", "0"))
-    return L, inv_one + tail
+    return L, inv_one + srt_tail + tail
 
 
 # --------------------------------------------------------------------------
@@ -676,18 +694,22 @@ def tiny_scalar_cases(cv, rng, quick, ops=None, count=None):
     """Tiny world: every routine on a dense / exhaustive set of scalars k in [-2n, 3n] and 2^j(+-1)."""
     n = cv.n
     c = cv.sel
-    allk = list(range(-n - 40, 2 * n + 41)) if not quick else None
+    top = (1 << n.bit_length()) - 1             # scalars with more bits than n meet a recorded finding: a few only
+    allk = list(range(-n - 40, top + 1)) if not quick else None
     corner = [0, 1, -1, 2, 3, n - 2, n - 1, n, n + 1, 2 * n - 1, 2 * n, 2 * n + 1, -n, -(n + 1), n // 2, (n + 1) // 2]
     for j in range(1, 18):
         corner += [(1 << j) - 1, 1 << j, (1 << j) + 1, -((1 << j) + 1)]
+    longk = [k for k in corner if abs(k).bit_length() > n.bit_length()]
+    corner = [k for k in corner if abs(k).bit_length() <= n.bit_length()]
     L = []
     G = "m1"
     for op in (ops or (EB_MUL + EB_FIX + ["eb_mul_gen"])):
         if quick:
-            ks = corner + [rng.randrange(-n, 2 * n) for _ in range(count or 250)]
+            ks = corner + [rng.randrange(-n, top) for _ in range(count or 250)]
         else:
             ks = corner + (allk if op in ("eb_mul_lwnaf", "eb_mul_rwnaf", "eb_mul_halve") else
-                           [rng.randrange(-n, 2 * n) for _ in range(count or 4000)])
+                           [rng.randrange(-n, top) for _ in range(count or 4000)])
+        ks = ks + rng.sample(longk, 1)
         pts = [G, "m%x" % rng.randrange(2, n)]
         for i, k in enumerate(ks):
             if op == "eb_mul_gen":
@@ -701,8 +723,9 @@ def tiny_scalar_cases(cv, rng, quick, ops=None, count=None):
         P = "m%x" % rng.randrange(1, n)
         for op in EB_MUL:
             L.append("%s %s 0 %s %s" % (c, op, P, hx(rng.choice(corner[:16]))))
-    small = list(range(-n - 2, 2 * n + 3))
+    small = list(range(-n - 2, top + 1))
     for op in EB_SIM + ["eb_mul_sim_gen"]:
+        eqop = 0
         for _ in range(120 if quick else 2500):
             k, m = rng.choice(small), rng.choice(small)
             if op == "eb_mul_sim_gen":
@@ -710,6 +733,12 @@ def tiny_scalar_cases(cv, rng, quick, ops=None, count=None):
             else:
                 mp = rng.randrange(1, n)
                 mq = rng.choice([rng.randrange(1, n), rng.randrange(1, n), mp, n - mp])
+                if mq in (mp, n - mp) and op in ("eb_mul_sim_joint", "eb_mul_sim_trick") and k and m:
+                    eqop += 1                   # a table entry is the identity: recorded finding, two cases per routine
+                    if eqop > 2:
+                        mq = (mp * 5 + 7) % n or 1
+                if op == "eb_mul_sim_trick" and (abs(k) == 1 or abs(m) == 1):
+                    k, m = k * 3 + 2, m * 3 + 2         # scalars shorter than the window: recorded finding (crash)
                 L.append("%s %s %d m%x %s m%x %s" % (c, op, rng.choice([0, 0, 1, 2]), mp, hx(k), mq, hx(m)))
     rng.shuffle(L)
     return L
